@@ -230,7 +230,7 @@ func main() {
 	fset := token.NewFileSet()
 	need := []string{"galois.go", "leopard.go", "leopard8.go", "reedsolomon.go",
 		"galois_gen_switch_amd64.go", "galois_gen_switch_nopshufb_amd64.go", "galois_gen_none.go",
-		"unsafe.go", "unsafe_disabled.go", "streaming.go", "options.go"}
+		"unsafe.go", "unsafe_disabled.go", "streaming.go", "options.go", "matrix.go"}
 	files := map[string]*ast.File{}
 	for _, n := range need {
 		files[n] = parseFile(fset, filepath.Join(repo, n))
@@ -239,7 +239,7 @@ func main() {
 		fatal("%v", err)
 	}
 	// delete stale generated files first
-	for _, n := range []string{"Tables.lean", "Facts.lean", "Switch.lean"} {
+	for _, n := range []string{"Tables.lean", "Facts.lean", "Switch.lean", "Funcs.lean", "MatrixGo.lean"} {
 		os.Remove(filepath.Join(out, n))
 	}
 
@@ -502,6 +502,53 @@ func main() {
 	sb.WriteString("]\n")
 	sb.WriteString("\nend RSV.Gen\n")
 	if err := os.WriteFile(filepath.Join(out, "Switch.lean"), []byte(sb.String()), 0o644); err != nil {
+		fatal("%v", err)
+	}
+
+	// ---------- Funcs.lean ----------
+	// the small pure scalar functions, translated statement by statement (funcs.go)
+	tinfo := map[string]tableInfo{}
+	for _, sp := range specs {
+		tinfo[sp.name] = tableInfo{dims: sp.dims, bytesPer: sp.bytesPer}
+	}
+	flist := []fspec{
+		{file: "galois.go", name: "galAdd", lean: "galAdd"},
+		{file: "galois.go", name: "galMultiply", lean: "galMultiply"},
+		{file: "galois.go", name: "galDivide", lean: "galDivide"},
+		{file: "galois.go", name: "galOneOver", lean: "galOneOver"},
+		{file: "galois.go", name: "galExp", lean: "galExp"},
+		{file: "leopard.go", name: "addMod", lean: "addMod"},
+		{file: "leopard.go", name: "subMod", lean: "subMod"},
+		{file: "leopard.go", name: "mulLog", lean: "mulLog"},
+		{file: "leopard.go", name: "ceilPow2", lean: "ceilPow2"},
+		{file: "leopard.go", name: "fwht2alt", lean: "fwht2alt"},
+		{file: "leopard8.go", name: "addMod8", lean: "addMod8"},
+		{file: "leopard8.go", name: "subMod8", lean: "subMod8"},
+		{file: "leopard8.go", name: "mulLog8", lean: "mulLog8"},
+		{file: "leopard8.go", name: "fwht2alt8", lean: "fwht2alt8"},
+		{file: "leopard8.go", recv: "errorBitfield8", name: "isNeeded", lean: "errorBitfield8_isNeeded"},
+		{file: "leopard.go", recv: "errorBitfield", name: "isNeeded", lean: "errorBitfield_isNeeded"},
+		// matrix.go, imperative mode (MatrixGo.lean)
+		{file: "matrix.go", name: "newMatrix", lean: "newMatrix", imp: true, group: "MatrixGo"},
+		{file: "matrix.go", name: "identityMatrix", lean: "identityMatrix", imp: true, group: "MatrixGo"},
+		{file: "matrix.go", recv: "matrix", name: "Augment", lean: "matrix_Augment", imp: true, group: "MatrixGo"},
+		{file: "matrix.go", recv: "matrix", name: "SubMatrix", lean: "matrix_SubMatrix", imp: true, group: "MatrixGo"},
+		{file: "matrix.go", recv: "matrix", name: "SwapRows", lean: "matrix_SwapRows", imp: true, group: "MatrixGo"},
+		{file: "matrix.go", recv: "matrix", name: "IsSquare", lean: "matrix_IsSquare", imp: true, group: "MatrixGo"},
+		{file: "matrix.go", recv: "matrix", name: "gaussianElimination", lean: "matrix_gaussianElimination", imp: true, group: "MatrixGo"},
+		{file: "matrix.go", recv: "matrix", name: "Invert", lean: "matrix_Invert", imp: true, group: "MatrixGo"},
+		{file: "matrix.go", name: "vandermonde", lean: "vandermonde", imp: true, group: "MatrixGo"},
+		{file: "matrix.go", recv: "matrix", name: "Multiply", lean: "matrix_Multiply", imp: true, group: "MatrixGo"},
+		{file: "reedsolomon.go", name: "buildMatrix", lean: "buildMatrix", imp: true, group: "MatrixGo"},
+		{file: "reedsolomon.go", name: "buildMatrixPAR1", lean: "buildMatrixPAR1", imp: true, group: "MatrixGo"},
+		{file: "reedsolomon.go", name: "buildMatrixCauchy", lean: "buildMatrixCauchy", imp: true, group: "MatrixGo"},
+		{file: "reedsolomon.go", name: "buildXorMatrix", lean: "buildXorMatrix", imp: true, group: "MatrixGo"},
+	}
+	ftexts := genFuncs(fset, files, need, tinfo, flist)
+	if err := os.WriteFile(filepath.Join(out, "Funcs.lean"), []byte(ftexts[""]), 0o644); err != nil {
+		fatal("%v", err)
+	}
+	if err := os.WriteFile(filepath.Join(out, "MatrixGo.lean"), []byte(ftexts["MatrixGo"]), 0o644); err != nil {
 		fatal("%v", err)
 	}
 }
